@@ -29,8 +29,8 @@ for pid in claimed:
         continue
     checks.append({
         'property_id': pid,
-        'quick_cmd': f'./check {pid} --tier quick',
-        'thorough_cmd': f'./check {pid} --tier thorough',
+        'quick_cmd': ' && '.join(f'./check {x} --tier quick' for x in [pid] + list(getattr(p, 'also', []))),
+        'thorough_cmd': ' && '.join(f'./check {x} --tier thorough' for x in [pid] + list(getattr(p, 'also', []))),
         'evidence_file': f'evidence/{pid}.json',
         'replay_cmd_template': f'./check {pid} --replay {{path}}',
         'engine': 'lean-model+harness',
@@ -39,7 +39,7 @@ for pid in claimed:
             'text': p.statement_note,
             'design_ref': f'DESIGN.md section 5 ({pid})',
         },
-        'level_note': '; '.join(core.BASE_TRUSTED[:2] + list(p.trusted) + [f'not modelled: {u}' for u in p.unmodelled]),
+        'level_note': (''.join(f'[{x}: {core.load_prop(x).statement_note}] ' for x in getattr(p, 'also', []))) + '; '.join(core.BASE_TRUSTED[:2] + list(p.trusted) + [f'not modelled: {u}' for u in p.unmodelled]),
         'technique': getattr(p, 'technique', 'Lean 4 theorems over an executable model + correspondence with the implementation'),
     })
 claimed_ids = {c['property_id'] for c in checks}
